@@ -453,6 +453,11 @@ func c16Case(src string, classes []string, stream string, r *Result, model *Mode
 	}
 	if c.CompileErr != "" {
 		r.Count(src, true)
+		if len(classes) == 1 && classes[0] == "operand-truncation" {
+			// a program beyond the operand widths may be rejected at compile time (that is the proposed fix)
+			r.Dist(stream + ":rejected-at-compile-time")
+			return
+		}
 		r.Violate(Violation{Kind: "property", Key: "compile-error-on-supported-program", Detail: c.CompileErr, Input: in})
 		return
 	}
